@@ -364,12 +364,15 @@ pub fn main(args: &Args) -> i32 {
         leave: 2,
         side: 5,
         reinvite: true,
+        // stored snapshots pruned behind a client's back: a later commit race then runs into a
+        // rollback that fails, and the refused commit must still leave everything as it was
+        vanish: 2,
         ..Weights::default()
     };
     let spec = Spec {
         id: "C06",
         level: "exploration",
-        rule: "three generated families. (1) world histories in which members mutate events they can open - outer event: kind, created_at (0 / far future / too old), h tag (missing, doubled, not hex, upper case, short, unknown group), content (not base64, truncated, empty); inner MLS bytes re-encrypted under the right exporter secret: empty, random, bit flips, truncation, extension, the clear framing header's epoch / content type / group id, back-dated genuine copies - and hand them to members in every state (idle, pending commit, pending proposals, inactive); every refused hand-over (error, unprocessable, previously failed, ignored proposal) must leave the fingerprints of all groups of that client identical; any panic is a violation. (2) one-field mutations of a valid key-package event through parse_key_package and add_members (refusal leaves the group unchanged). (3) sequences of calls to every exported method of mdk-uniffi with junk strings / byte vectors (odd, short, long, non-hex, broken / wrong-shape / deep JSON, NUL and bidi characters, 200 KB, valid ids of the wrong kind): no panic. 35 % of the worlds carry a second live group on the same clients: a refused event must leave that group untouched as well, and events of one group re-tagged for the other must be refused. Non-trivial = a mutant that passed the outer layers it was built to pass, any key-package or binding case; distinct = distinct cases".into(),
+        rule: "three generated families. (1) world histories in which members mutate events they can open - outer event: kind, created_at (0 / far future / too old), h tag (missing, doubled, not hex, upper case, short, unknown group), content (not base64, truncated, empty); inner MLS bytes re-encrypted under the right exporter secret: empty, random, bit flips, truncation, extension, the clear framing header's epoch / content type / group id, back-dated genuine copies - and hand them to members in every state (idle, pending commit, pending proposals, inactive); stored rollback snapshots are now and then pruned behind a client's back, so that a late better commit is refused because its rollback fails; every refused hand-over (error, unprocessable, previously failed, ignored proposal) must leave the fingerprints of all groups of that client identical; any panic is a violation. (2) one-field mutations of a valid key-package event through parse_key_package and add_members (refusal leaves the group unchanged). (3) sequences of calls to every exported method of mdk-uniffi with junk strings / byte vectors (odd, short, long, non-hex, broken / wrong-shape / deep JSON, NUL and bidi characters, 200 KB, valid ids of the wrong kind): no panic. 35 % of the worlds carry a second live group on the same clients: a refused event must leave that group untouched as well, and events of one group re-tagged for the other must be refused. Non-trivial = a mutant that passed the outer layers it was built to pass, any key-package or binding case; distinct = distinct cases".into(),
         assumptions: vec![
             "OpenMLS's internal ratchet bookkeeping is not observable through the API and not compared".into(),
             "welcome mutations are C16's subject (same oracle there)".into(),
